@@ -76,7 +76,9 @@ ALPHABET = [
     make("m1", "nsA", "B"),  # same namespace, different name
     make("m2", "nsC", "A"),  # different namespace, same name
     make("m3", "nsA", "A"),  # identical twin of m0 (same keys, different content)
-    make("m4", "nsD", "D"),  # disjoint
+    # disjoint; its NAME is also the name of its decision, and it has a (typed) input data element and a knowledge model named like its namespace
+    Model("m4", "nsD", "D", "m4", True, tiny_model_xml("nsD", "D", "m4", extra='<inputData name="In" id="in_m4"><variable name="In" typeRef="string"/></inputData>'
+          '<businessKnowledgeModel name="nsD" id="bkm_m4"><variable name="nsD"/><encapsulatedLogic><formalParameter name="p" typeRef="number"/><literalExpression><text>p + 1</text></literalExpression></encapsulatedLogic></businessKnowledgeModel>')),
     make("m5", "A", "nsA"),  # namespace string = m0's NAME, name string = m0's NAMESPACE
     make("m6", "nsF", "F", builds=False),  # parses, fails to build; keys disjoint from all others
 ]
